@@ -55,6 +55,16 @@ class Scn:
         self.op(op="mark", name=name)
         return name
 
+    # -- pause points (verif hooks in /repo) ------------------------------
+    def hold(self, point, n=1, skip=0):
+        return self.op(op="hold", point=point, n=n, skip=skip)
+
+    def release(self, point):
+        return self.op(op="release", point=point)
+
+    def until_held(self, point, n=1):
+        return self.op(op="until", actor="hook", ev="HookEnter", key="point", val=point, n=n)
+
     # -- calls -----------------------------------------------------------
     def call(self, who, api, async_=False, tag=None, **kw):
         o = dict(op="call", who=who, api=api, **kw)
